@@ -186,7 +186,9 @@ def r3(R, m):
     R.shape(it.startswith("self.peaks"), "C03.R3", REL, "unitcell.makerings", "a loop over self.peaks[...]")
     R.check(it == "self.peaks[1:]", "C03.R3", REL, lp.lineno, "unitcell.makerings", "loop over %s" % src(lp.iter),
             "the grouping loop must visit every reflection after the first exactly once")
-    seed = [a for a in fn.body if isinstance(a, ast.Assign) and src(a.value).replace(" ", "") == "self.peaks[0]" and a.lineno < lp.lineno]
+    cfg0 = pyfacts.PyCFG(fn)
+    seed = [a for a in ast.walk(fn) if isinstance(a, ast.Assign) and src(a.value).replace(" ", "") == "self.peaks[0]" and cfg0.node_of(a) is not None
+            and cfg0.node_of(lp) is not None and cfg0.dominates(cfg0.node_of(a), cfg0.node_of(lp))]
     R.check(len(seed) == 1, "C03.R3", REL, fn.lineno, "unitcell.makerings", "<first> = self.peaks[0] seeds the first ring",
             "the first reflection is not placed in a ring")
     # the path analysis below understands the form  for peak in ...: self.ringds / self.ringhkls  with peak[0], peak[1]
@@ -265,10 +267,10 @@ def r4(R, m):
             and s.value.func.attr == "append" and src(s.value.func.value) == "peaks"]
     R.shape(len(apps) >= 1, "C03.R4", REL, "unitcell.gethkls", "the statement that appends to the peak list")
     for a in apps:
-        g = [(src(t), pol) for t, pol in cfg.guards(cfg.node_of(a))]
-        R.check(("ds < dsmax", True) in g, "C03.R4", REL, a.lineno, "unitcell.gethkls", "append guarded by ds < dsmax (strict)",
-                "reflections at or beyond the d-star limit are listed")
-        R.check(("not self.absent(h, k, l)", True) in g or ("self.absent(h, k, l)", False) in g, "C03.R4", REL, a.lineno, "unitcell.gethkls",
+        g = pyfacts.guard_atoms(cfg.guards(cfg.node_of(a)))      # conjunctions split, negations folded into the polarity
+        R.check(("ds<dsmax", True) in g or ("dsmax>ds", True) in g or ("ds>=dsmax", False) in g, "C03.R4", REL, a.lineno, "unitcell.gethkls",
+                "append guarded by ds < dsmax (strict)", "reflections at or beyond the d-star limit are listed")
+        R.check(("self.absent(h,k,l)", False) in g, "C03.R4", REL, a.lineno, "unitcell.gethkls",
                 "append guarded by not self.absent(h, k, l)", "systematically absent reflections are listed")
         R.check(src(a.value.args[0]).replace(" ", "") == "[ds,(h,k,l)]", "C03.R4", REL, a.lineno, "unitcell.gethkls", "entry [ds, (h, k, l)]",
                 "the stored d-star or indices are not those that were tested")
@@ -324,17 +326,53 @@ def r4(R, m):
         R.check(not early, "C03.R4", REL, early[0].lineno if early else fn.lineno, "unitcell.gethkls", "no break in the enumeration",
                 "the scan of a lattice line / plane is cut short")
         def is_origin(t):
-            """t is  h == 0 and k == 0 and l == 0  (any order, any nesting of 'and')"""
-            names = set()
+            """t is true exactly at h = k = l = 0: decided on the 27 index triples of {-1, 0, 1}^3 (h == 0 and k == 0 and l == 0,
+            not (h or k or l), (h, k, l) == (0, 0, 0), h == k == l == 0, abs(h) + abs(k) + abs(l) == 0 ...)"""
+            import itertools as _it
 
-            def walk(e):
-                if isinstance(e, ast.BoolOp) and isinstance(e.op, ast.And):
-                    return all(walk(v_) for v_ in e.values)
-                if isinstance(e, ast.Compare) and len(e.ops) == 1 and isinstance(e.ops[0], ast.Eq) and isinstance(e.left, ast.Name) and pyfacts.const_int(e.comparators[0]) == 0:
-                    names.add(e.left.id)
+            class _No(Exception):
+                pass
+
+            def ev(e, env):
+                if isinstance(e, ast.Constant) and isinstance(e.value, (int, bool)):
+                    return e.value
+                if isinstance(e, ast.Name) and e.id in env:
+                    return env[e.id]
+                if isinstance(e, ast.Tuple):
+                    return tuple(ev(x, env) for x in e.elts)
+                if isinstance(e, ast.UnaryOp) and isinstance(e.op, ast.Not):
+                    return not ev(e.operand, env)
+                if isinstance(e, ast.UnaryOp) and isinstance(e.op, ast.USub):
+                    return -ev(e.operand, env)
+                if isinstance(e, ast.BoolOp):
+                    vals = [ev(v_, env) for v_ in e.values]
+                    r_ = vals[0]
+                    for v_ in vals[1:]:
+                        r_ = (r_ and v_) if isinstance(e.op, ast.And) else (r_ or v_)
+                    return r_
+                if isinstance(e, ast.BinOp) and isinstance(e.op, (ast.Add, ast.Mult, ast.Sub)):
+                    a_, b_ = ev(e.left, env), ev(e.right, env)
+                    return a_ + b_ if isinstance(e.op, ast.Add) else (a_ * b_ if isinstance(e.op, ast.Mult) else a_ - b_)
+                if isinstance(e, ast.Call) and src(e.func) == "abs" and len(e.args) == 1:
+                    return abs(ev(e.args[0], env))
+                if isinstance(e, ast.Compare):
+                    left = ev(e.left, env)
+                    for op, c_ in zip(e.ops, e.comparators):
+                        right = ev(c_, env)
+                        ok_ = {ast.Eq: left == right, ast.NotEq: left != right, ast.Lt: left < right, ast.LtE: left <= right,
+                               ast.Gt: left > right, ast.GtE: left >= right}.get(type(op))
+                        if ok_ is None:
+                            raise _No()
+                        if not ok_:
+                            return False
+                        left = right
                     return True
+                raise _No()
+            try:
+                truth = {trip: bool(ev(t, dict(zip(idx, trip)))) for trip in _it.product((-1, 0, 1), repeat=3)}
+            except _No:
                 return False
-            return walk(t) and names == set(idx)
+            return all(v_ == (trip == (0, 0, 0)) for trip, v_ in truth.items())
         R.check(any(is_origin(t) and not pol for t, pol in cfg.guards(an)), "C03.R4", REL, apps[0].lineno, "unitcell.gethkls", "(0,0,0) is skipped",
                 "the (000) reflection (d-star 0) is listed")
         conts = [x for x in ast.walk(fn) if isinstance(x, ast.Continue)]
